@@ -23,6 +23,7 @@ type PropConfig struct {
 	NotApplicable []string `json:"not_applicable"` // clauses declared N/A (informational, copied to evidence)
 	Assumptions   []string `json:"assumptions"`
 	Bounded       []string `json:"bounded"` // bounded stand-ins: file names under /verif/bounded (Go test sources run through an overlay)
+	Exclude       []string `json:"exclude"` // obligations of the listed functions that belong to another property (not claimed here)
 	Level         string `json:"level"` // evidence level override ("other" for properties decided mainly by bounded stand-ins)
 	Explanation   string `json:"explanation"`
 	Callers       map[string][]string `json:"callers"` // callee -> the only functions allowed to call it (package sweep)
@@ -99,6 +100,9 @@ func checkMain(args []string) int {
 			knownFailing[k.Obligation] = true
 		}
 	}
+	for _, ex := range pc.Exclude {
+		knownFailing[ex] = true
+	}
 	timeout := 10
 	all := false
 	if *tier == "thorough" {
@@ -160,6 +164,15 @@ func checkMain(args []string) int {
 			abstracted = append(abstracted, r.key+": "+a)
 		}
 		for _, o := range r.res.VC.Obls {
+			skip := false
+			for _, ex := range pc.Exclude {
+				if o.Name == ex {
+					skip = true
+				}
+			}
+			if skip {
+				continue
+			}
 			allObls = append(allObls, o)
 			records = append(records, oblRecord{o.Name, o.Kind, o.Result, o.Backend, o.Ms, o.Pos, o.Text})
 		}
@@ -321,7 +334,7 @@ func vacuityCheck(vcs []vcAndKey, timeout int) []string {
 				q := v.vc.CoverQuery(cp.Guard, cp.NAssumes)
 				r := runSolver(solvers[0], dropQuantified(q), timeout)
 				if r.verdict == "unsat" {
-					pre := v.vc.CoverQuery(cp.Guard, 0)
+					pre := v.vc.CoverQuery(cp.Guard, cp.PreAssumes)
 					if r0 := runSolver(solvers[0], dropQuantified(pre), timeout); r0.verdict == "unsat" {
 						return
 					}
